@@ -128,6 +128,7 @@ def check(run):
     order(run, p, funcs)
     memo(run, p)
     argmut(run, p)
+    seedfwd(run, p)
     from .c03 import evidence
     evidence(run, p, 'C14-EVIDENCE')
     run.rules['C14-EVIDENCE'] += ' (a cap on what is seen would make the class chosen depend on which examples come first)'
@@ -259,3 +260,29 @@ def argmut(run, p):
                 run.ob('C14-ARGMUT', '%s::%s::%s::%s' % (f.rel, f.short, q, how), False,
                        'argument %s of %s is changed in place: %s in %s' % (q, f.short, how, g.short), fn=g, node=node)
     run.floor('C14-ARGMUT', n, 30)
+
+
+def seedfwd(run, p):
+    from ..flow import GuardMap
+    run.rule('C14-SEEDFWD', 'a given seed always takes effect: every PRNGState(...) in Extractor is handed the constructor\'s `seed` '
+                            'argument or self.seed, and self.seed is assigned that argument as it is, unconditionally (not made to '
+                            'depend on a sampling flag or any other option)')
+    ex = p.cls('Extractor')
+    n = 0
+    for m in ex.methods.values():
+        gm = None
+        for x in p.own_nodes(m):
+            if isinstance(x, ast.Call) and norm(x.func).split('.')[-1] == 'PRNGState':
+                n += 1
+                a = x.args[0] if x.args else None
+                ok = a is not None and ((isinstance(a, ast.Name) and a.id == 'seed' and 'seed' in m.params) or norm(a) == 'self.seed')
+                run.ob('C14-SEEDFWD', '%s::%s::%s' % (m.rel, m.short, norm(x)[:40]), ok,
+                       '%s seeds with %s' % (m.short, norm(a) if a is not None else 'nothing'), fn=m, node=x)
+            if isinstance(x, ast.Assign) and any(norm(t) == 'self.seed' for t in x.targets):
+                n += 1
+                gm = gm or GuardMap(m.node)
+                cond = [g for g in (gm.chain(x) or ()) if g.kind == 'if']
+                ok = isinstance(x.value, ast.Name) and x.value.id == 'seed' and 'seed' in m.params and not cond
+                run.ob('C14-SEEDFWD', '%s::%s::self.seed' % (m.rel, m.short), ok,
+                       'self.seed = %s%s' % (norm(x.value)[:50], '' if ok else ': the caller\'s seed can be replaced or dropped'), fn=m, node=x)
+    run.floor('C14-SEEDFWD', n, 3)
